@@ -2,6 +2,6 @@
 # offline setup: regenerate Gen/ from /repo and build the whole Coq development
 cd "$(dirname "$0")"
 export PYTHONHASHSEED=0 TZ=UTC
-/venv/bin/python tools/gen_all.py || echo "generator failure (reported by the checks)"
+
 timeout 3000 coq/mk.sh -k || echo "coq build failure (reported by the checks)"
 exit 0
